@@ -153,6 +153,34 @@ theorem materialise_exact_bit (t : Ty) (ht : isIntTy t = true) (v : Nat) (ty : O
     simp [inRange, minOf, maxOf, isSigned, width] at hr <;>
     simp only [materialise, wrap, isSigned, width] <;> simp <;> omega
 
+/-- **on either target**: the lint fires exactly when the literal is outside the range its type has on that target
+    (`usize` is `0 .. 2^32 - 1` on wasm32), and in-range literals are materialised exactly -/
+def inRangeOn (ptr32 : Bool) (t : Ty) (v : Int) : Bool := inRange (targetTy ptr32 t) v
+
+theorem targetTy_int (ptr32 : Bool) (t : Ty) (ht : isIntTy t = true) : isIntTy (targetTy ptr32 t) = true := by
+  cases t <;> cases ptr32 <;> simp_all [targetTy, isIntTy]
+
+theorem lint_iff_out_of_range_on (ptr32 : Bool) (t : Ty) (ht : isIntTy t = true) (v : Int) (ty : Option Ty) :
+    lintNode (targetTy ptr32 t) (.signed v ty) = !inRangeOn ptr32 t v :=
+  lint_iff_out_of_range _ (targetTy_int ptr32 t ht) v ty
+
+theorem lint_iff_out_of_range_bit_on (ptr32 : Bool) (t : Ty) (ht : isIntTy t = true) (v : Nat) (ty : Option Ty) :
+    lintNode (targetTy ptr32 t) (.bit v ty) = !inRangeOn ptr32 t (v : Int) :=
+  lint_iff_out_of_range_bit _ (targetTy_int ptr32 t ht) v ty
+
+theorem materialise_exact_on (ptr32 : Bool) (t : Ty) (ht : isIntTy t = true) (v : Int) (ty : Option Ty)
+    (hr : inRangeOn ptr32 t v = true) : materialise (2 ^ 64) (targetTy ptr32 t) (.signed v ty) = v :=
+  materialise_exact _ (targetTy_int ptr32 t ht) v ty hr
+
+/-- the range of `usize` on wasm32, and what the linter did before it knew the target: `0x1_0000_0001` passed unlinted
+    and was stored as `i32 1` -/
+example : inRangeOn true .usize 4294967295 = true ∧ inRangeOn true .usize 4294967296 = false ∧
+    lintNode (targetTy true .usize) (.bit 4294967297 none) = true ∧ lintNode .usize (.bit 4294967297 none) = false ∧
+    materialise (2 ^ 64) (targetTy true .usize) (.bit 4294967297 none) = 1 := by decide
+theorem outcomeOn_host (m : Nat) (t : Ty) (neg : Bool) (sp : List Char) : outcomeOn false m t neg sp = outcome m t neg sp := by
+  have : targetTy false t = t := by cases t <;> rfl
+  simp [outcomeOn, outcome, this]
+
 /-- with the pinned 32-bit mask the statement is false: the witness that was replayed on the real compiler -/
 theorem materialise_pinned_mask_counterexample :
     inRange .usize 4294967296 = true ∧ materialise (2 ^ 32) .usize (.bit 4294967296 none) = 0 := by decide
